@@ -630,6 +630,15 @@ impl<W: Write + io::Seek> ZipWriter<W> {
         if !self.writing_to_central_extra_field_only {
             let writer = self.inner.get_plain();
 
+            // The local extra field also holds the reserved ZIP64 record of a large file.
+            let extra_field_length = if file.large_file { 20 } else { 0 } + file.extra_field.len();
+            if extra_field_length > u16::MAX as usize {
+                return Err(ZipError::Io(io::Error::new(
+                    io::ErrorKind::InvalidData,
+                    "Extra data exceeds extra field",
+                )));
+            }
+
             // Append extra data to local file header and keep it for central file header.
             writer.write_all(&file.extra_field)?;
 
@@ -639,10 +648,8 @@ impl<W: Write + io::Seek> ZipWriter<W> {
             *data_start = header_end;
 
             // Update extra field length in local file header.
-            let extra_field_length =
-                if file.large_file { 20 } else { 0 } + file.extra_field.len() as u16;
             writer.seek(io::SeekFrom::Start(file.header_start + 28))?;
-            writer.write_u16::<LittleEndian>(extra_field_length)?;
+            writer.write_u16::<LittleEndian>(extra_field_length as u16)?;
             writer.seek(io::SeekFrom::Start(header_end))?;
 
             self.inner
@@ -826,6 +833,13 @@ impl<W: Write + io::Seek> ZipWriter<W> {
 
     fn finalize(&mut self) -> ZipResult<()> {
         self.finish_file()?;
+
+        if self.comment.len() > u16::MAX as usize {
+            return Err(ZipError::Io(io::Error::new(
+                io::ErrorKind::InvalidInput,
+                "Archive comment is too long",
+            )));
+        }
 
         {
             let writer = self.inner.get_plain();
@@ -1087,6 +1101,20 @@ fn clamp_opt<T: Ord + Copy>(value: T, range: std::ops::RangeInclusive<T>) -> Opt
 }
 
 fn write_local_file_header<T: Write>(writer: &mut T, file: &ZipFileData) -> ZipResult<()> {
+    // the lengths are stored in 16-bit fields: refuse what they cannot hold
+    if file.file_name.as_bytes().len() > u16::MAX as usize {
+        return Err(ZipError::Io(io::Error::new(
+            io::ErrorKind::InvalidInput,
+            "File name is too long",
+        )));
+    }
+    let extra_field_length = if file.large_file { 20 } else { 0 } + file.extra_field.len();
+    if extra_field_length > u16::MAX as usize {
+        return Err(ZipError::Io(io::Error::new(
+            io::ErrorKind::InvalidInput,
+            "Extra data exceeds extra field",
+        )));
+    }
     // local file header signature
     writer.write_u32::<LittleEndian>(spec::LOCAL_FILE_HEADER_SIGNATURE)?;
     // version needed to extract
@@ -1117,8 +1145,7 @@ fn write_local_file_header<T: Write>(writer: &mut T, file: &ZipFileData) -> ZipR
     // file name length
     writer.write_u16::<LittleEndian>(file.file_name.as_bytes().len() as u16)?;
     // extra field length
-    let extra_field_length = if file.large_file { 20 } else { 0 } + file.extra_field.len() as u16;
-    writer.write_u16::<LittleEndian>(extra_field_length)?;
+    writer.write_u16::<LittleEndian>(extra_field_length as u16)?;
     // file name
     writer.write_all(file.file_name.as_bytes())?;
     // zip64 extra field
@@ -1158,6 +1185,20 @@ fn write_central_directory_header<T: Write>(writer: &mut T, file: &ZipFileData) 
     let mut zip64_extra_field = [0; 28];
     let zip64_extra_field_length =
         write_central_zip64_extra_field(&mut zip64_extra_field.as_mut(), file)?;
+    // the lengths are stored in 16-bit fields: refuse what they cannot hold
+    if file.file_name.as_bytes().len() > u16::MAX as usize {
+        return Err(ZipError::Io(io::Error::new(
+            io::ErrorKind::InvalidInput,
+            "File name is too long",
+        )));
+    }
+    let extra_field_length = zip64_extra_field_length as usize + file.extra_field.len();
+    if extra_field_length > u16::MAX as usize {
+        return Err(ZipError::Io(io::Error::new(
+            io::ErrorKind::InvalidInput,
+            "Extra data exceeds extra field",
+        )));
+    }
 
     // central file header signature
     writer.write_u32::<LittleEndian>(spec::CENTRAL_DIRECTORY_HEADER_SIGNATURE)?;
@@ -1188,7 +1229,7 @@ fn write_central_directory_header<T: Write>(writer: &mut T, file: &ZipFileData) 
     // file name length
     writer.write_u16::<LittleEndian>(file.file_name.as_bytes().len() as u16)?;
     // extra field length
-    writer.write_u16::<LittleEndian>(zip64_extra_field_length + file.extra_field.len() as u16)?;
+    writer.write_u16::<LittleEndian>(extra_field_length as u16)?;
     // file comment length
     writer.write_u16::<LittleEndian>(0)?;
     // disk number start
